@@ -495,6 +495,8 @@ def describe_labels(case, sim=None) -> tuple[bool, list[str]]:
                 for it in st_["items"]:
                     if not isinstance(it, str):
                         labels.add(f"__all__-splice:{it[0]}{'-attr' if it[1].endswith('.__all__') else ''}")
+                        if len(it) > 2:
+                            labels.add("__all__-splice-through-module-alias")
                 if st_["op"] == "+=":
                     labels.add("__all__-augassign")
                 if st_["seq"] != "list":
@@ -773,16 +775,59 @@ def _add_all(draw, case, mod, sim, sources, all_forms: bool, unique_helpers: boo
     spliceable = [s for s in spliceable if not (set(sim[s]["exports"]) & set(own_children))]
     if avoid_stale:
         spliceable = [s for s in spliceable if not (sim[s]["tainted"] & set(sim[s]["exports"]))]
-    if all_forms and spliceable and draw(st.booleans()):
+    # sources that some earlier module holds a direct module alias of (`from . import impl as core`): splicing through
+    # such an alias is rare by chance, so it is preferred whenever it is possible
+    aliased = []
+    if all_forms:
+        for s_ in spliceable:
+            if any(
+                zi.get("kind") == "module" and zi.get("origin") == s_ and zi["how"] in ("from", "import") and not zi["chain"]
+                and not zi.get("helper") and z not in me["ns"]
+                for y in sources if y != s_ for z, zi in sim[y]["ns"].items()
+            ):
+                aliased.append(s_)
+    if aliased and draw(st.integers(0, 2)) > 0:
+        splices.append((draw(st.sampled_from(aliased)), draw(st.sampled_from(("star-alias", "plus-alias")))))
+    elif all_forms and spliceable and draw(st.booleans()):
         for src in draw(st.lists(st.sampled_from(spliceable), min_size=1, max_size=2, unique=True)):
-            form = draw(st.sampled_from(("star", "plus", "aug", "star-attr", "plus-attr")))
+            form = draw(st.sampled_from(("star", "plus", "aug", "star-attr", "plus-attr", "star-alias", "plus-alias", "star-alias", "plus-alias")))
             splices.append((src, form))
     pre: list = []  # binding statements that must precede the __all__ statement
     post: list = []  # __all__ += ... statements
     src_seq = {m["path"]: next((s["seq"] for s in m["body"] if s["t"] == "all" and s["op"] == "="), "list") for m in case["mods"]}
+    used: set = set()
+    spliced_exports = set().union(*[set(sim[s_]["exports"]) for s_, _ in splices]) if splices else set()
     for src, form in splices:
         level = _pick_level(draw, path, mod["pkg"], src)
-        if form.endswith("-attr"):
+        via_alias = False
+        if form.endswith("-alias"):
+            # `from <other module> import z` where z is that module's alias of module `src` (`from . import impl as core`,
+            # `import p.impl as core`), then `z.__all__`: the lookup of the spliced list goes THROUGH an alias member
+            cands = []
+            for y in sources:
+                if y == src:
+                    continue
+                bad = sim[y]["tainted"] if avoid_stale else set()
+                for z in mentionable(case, sim, y):
+                    zi = sim[y]["ns"][z]
+                    # the other module binds z by a direct module import (exports are expanded before wildcards, so a
+                    # name that only arrives through a wildcard cannot be used to splice: documented forms only)
+                    if (zi.get("kind") == "module" and zi.get("origin") == src and zi["how"] in ("from", "import") and not zi["chain"]
+                            and not zi.get("helper") and z not in me["ns"]
+                            and z not in own_children and z not in used and z not in spliced_exports and z not in bad):
+                        cands.append((y, z))
+            if cands:
+                y, z = draw(st.sampled_from(cands))
+                used.add(z)
+                pre.append({"t": "from", "mod": y, "level": _pick_level(draw, path, mod["pkg"], y), "names": [[z, None]]})
+                ref = f"{z}.__all__"
+                via_alias = True
+            else:
+                form = form.replace("-alias", "-attr")
+        tag = ["alias"] if via_alias else []
+        if via_alias:
+            pass
+        elif form.endswith("-attr"):
             # `<top>.a.b.__all__` reads attributes of packages: `a` must be fully imported, so it must not be
             # this module or one of its ancestors (which may still be initialising)
             shares_branch = src != "" and path != "" and src.split(".")[0] == path.split(".")[0]
@@ -827,13 +872,13 @@ def _add_all(draw, case, mod, sim, sources, all_forms: bool, unique_helpers: boo
         kind = form.split("-")[0]
         if kind == "star" or not same_type:
             if kind == "aug":
-                post.append({"t": "all", "op": "+=", "seq": seq, "ann": False, "items": [["star", ref]]})
+                post.append({"t": "all", "op": "+=", "seq": seq, "ann": False, "items": [["star", ref, *tag]]})
             else:
-                items.append(["star", ref])
+                items.append(["star", ref, *tag])
         elif kind == "plus":
-            items.append(["plus", ref])
+            items.append(["plus", ref, *tag])
         else:
-            post.append({"t": "all", "op": "+=", "seq": seq, "ann": False, "items": [["plus", ref]]})
+            post.append({"t": "all", "op": "+=", "seq": seq, "ann": False, "items": [["plus", ref, *tag]]})
         # every name of the spliced list must exist in this module when somebody wildcard-imports it
         missing = [n for n in sim[src]["exports"] if n not in me["ns"]]
         if missing:
